@@ -202,7 +202,10 @@ fn gen_send(rng: &mut Rng, p: &Profile, h: u8, ids: &mut IdGen, bounded_wait_onl
     if bounded_wait_only {
         w[0] = 0;
     }
-    let us = *rng.pick(&p.timeouts);
+    let mut us = *rng.pick(&p.timeouts);
+    if bounded_wait_only && us == u32::MAX {
+        us = 100;
+    }
     let id = ids.next();
     match rng.weighted(&w) {
         0 => Op::Send { h, id },
@@ -228,7 +231,10 @@ fn gen_recv(rng: &mut Rng, p: &Profile, h: u8, stream_open: &mut bool, bounded_w
         w[0] = 0;
         w[7] = 0;
     }
-    let us = *rng.pick(&p.timeouts);
+    let mut us = *rng.pick(&p.timeouts);
+    if bounded_wait_only && us == u32::MAX {
+        us = 100;
+    }
     match rng.weighted(&w) {
         0 => out.push(Op::Recv { h }),
         1 => out.push(Op::RecvTimeout { h, us }),
@@ -551,6 +557,7 @@ pub fn profile_for(prop: &str) -> Profile {
             p.ops = (1, 5);
         }
         "C13" => {
+            p.timeouts = vec![0, 5, 20, 100, 0, 5, 20, 100, u32::MAX];
             p.send_w = [5, 35, 35, 3, 3, 2, 2, 15];
             p.recv_w = [10, 50, 5, 2, 3, 20, 5, 5];
             p.p_advance = 15;
